@@ -33,6 +33,10 @@ type watchPartitionUpdate struct {
 	// been created) or has to join the existing group (the node learned about the
 	// partition from a catalogue snapshot).
 	bootstrap bool
+	// The partition's replica set when the catalogue asked to watch it. The catalogue
+	// goes on applying entries while this update waits to be handled, the replica set
+	// read then can already contain nodes that were added to the group later.
+	nodeIds []uint64
 }
 
 type unwatchPartitionUpdate struct {
@@ -68,7 +72,8 @@ func (this *Allocator) watch(partition *partition, bootstrap bool) {
 
 	if _, exists := this.partitions[partition.id]; !exists {
 		this.partitions[partition.id] = partition
-		this.updatesC <- &watchPartitionUpdate{partition, bootstrap}
+		nodeIds := append(make([]uint64, 0), partition.nodeIds()...)
+		this.updatesC <- &watchPartitionUpdate{partition, bootstrap, nodeIds}
 	}
 }
 
@@ -135,7 +140,18 @@ func (this *Allocator) run() {
 			case *watchPartitionUpdate:
 				_partition := update.(*watchPartitionUpdate).partition
 				bootstrap := update.(*watchPartitionUpdate).bootstrap
-				if this.isPartitionAssignedToNode(_partition) {
+				nodeIds := update.(*watchPartitionUpdate).nodeIds
+				// Only a node of the replica set the partition was watched with starts the
+				// group here (and bootstraps it with exactly that set: every founding member
+				// must write the same first entries). A node that was added to the replica
+				// set since then joins the existing group when it applies that change.
+				wasAssigned := false
+				for _, nodeId := range nodeIds {
+					if nodeId == this.clusterConn.Id() {
+						wasAssigned = true
+					}
+				}
+				if wasAssigned && this.isPartitionAssignedToNode(_partition) {
 					func(partition *partition) {
 						defer func() {
 							if r := recover(); r != nil {
@@ -143,7 +159,7 @@ func (this *Allocator) run() {
 							}
 						}()
 						if bootstrap {
-							partition.loadRaft(partition.nodeIds())
+							partition.loadRaft(nodeIds)
 						} else {
 							partition.loadRaft(nil)
 						}
